@@ -1,25 +1,26 @@
 #!/bin/bash
-# usage: tools/confirm_mut.sh <Cxx> <k> <seed-id>
+# usage: tools/confirm_mut.sh <Cxx> <k> <seed-id> [package-dir]
 # Confirms an agent-written seeded change myself in a scratch worktree of /repo's *current* HEAD:
 # unchanged tree: demo passes; with patch: builds, full unedited suite passes, demo fails.
 # On success stores /verif/seeded/<seed-id>/{patch.diff,demo_test.go,notes.md,confirm.log}.
 export GOFLAGS=-mod=mod GOPROXY=off
-prop=$1; k=$2; sid=$3
+prop=$1; k=$2; sid=$3; pkg=${4:-.}
 src=/tmp/mut/out-$prop/$k
 wt=/tmp/mut/confirm-$sid
 git -C /repo worktree remove --force $wt >/dev/null 2>&1
 git -C /repo worktree add --detach $wt HEAD >/dev/null 2>&1 || { echo "$sid worktree-failed"; exit 2; }
 log=$(mktemp)
-cp $src/demo_test.go $wt/zz_seed_demo_test.go
-(cd $wt && go test -vet=off -count=1 -run "TestC[0-9]+Demo$k" . >$log.clean 2>&1); clean=$?
-rm -f $wt/zz_seed_demo_test.go
+rx="^($(grep -ho "^func Test[A-Za-z0-9_]*" $src/demo_test.go | sed "s/func //" | paste -sd"|"))\$"
+cp $src/demo_test.go $wt/$pkg/zz_seed_demo_test.go
+(cd $wt && go test -vet=off -count=1 -run "$rx" ./$pkg/ >$log.clean 2>&1); clean=$?
+rm -f $wt/$pkg/zz_seed_demo_test.go
 git -C $wt apply $src/patch.diff || { echo "$sid apply-failed"; git -C /repo worktree remove --force $wt; exit 2; }
 (cd $wt && go build ./... >/dev/null 2>&1); build=$?
 (cd $wt && go test -vet=off -count=1 ./... >$log.suite 2>&1); suite=$?
-cp $src/demo_test.go $wt/zz_seed_demo_test.go
-(cd $wt && go test -vet=off -count=1 -run "TestC[0-9]+Demo$k" . >$log.mut 2>&1); mut=$?
+cp $src/demo_test.go $wt/$pkg/zz_seed_demo_test.go
+(cd $wt && go test -vet=off -count=1 -run "$rx" ./$pkg/ >$log.mut 2>&1); mut=$?
 git -C /repo worktree remove --force $wt
-res="$sid build=$build suite=$suite demo_clean=$clean demo_mutated=$mut head=$(git -C /repo rev-parse --short HEAD)"
+res="$sid pkg=$pkg tests=$rx build=$build suite=$suite demo_clean=$clean demo_mutated=$mut head=$(git -C /repo rev-parse --short HEAD)"
 echo "$res"
 if [ $build = 0 ] && [ $suite = 0 ] && [ $clean = 0 ] && [ $mut != 0 ]; then
   d=/verif/seeded/$sid; mkdir -p $d
